@@ -450,6 +450,12 @@ struct G<'a> {
     tcount: usize,
     mcount: usize,
     vars: Vec<String>,
+    /// ECMAScript + late binding: content may only read variables that are certainly bound where it runs
+    /// (top-level ones and those of the state itself and its ancestors): reading an unbound variable is
+    /// `undefined` arithmetic there, not an error
+    scoped: bool,
+    all_vars: Vec<String>,
+    scope: Vec<String>,
     budget_var: usize,
 }
 
@@ -497,6 +503,17 @@ impl<'a> G<'a> {
             if node.kind == Kind::State && !node.children.is_empty() && self.pm(if depth == 0 { self.p.top_final } else { self.p.finals }) {
                 let fid = self.fresh_id();
                 node.children.push(Node::new(&fid, Kind::Final));
+                // sometimes a second final child (a state can be "done" in more than one way), placed before
+                // the other children half of the time so that finals are not always last in document order
+                if self.rng.chance(1, 3) && self.n < self.p.max_states + 1 {
+                    let fid = self.fresh_id();
+                    let f2 = Node::new(&fid, Kind::Final);
+                    if self.rng.chance(1, 2) {
+                        node.children.insert(1.min(node.children.len()), f2);
+                    } else {
+                        node.children.push(f2);
+                    }
+                }
             }
         }
         node
@@ -707,6 +724,17 @@ impl<'a> G<'a> {
             return;
         }
         let dm = self.p.dm;
+        let pushed = node.data.len();
+        if self.scoped {
+            if depth == 0 {
+                self.all_vars = self.vars.clone();
+            }
+            for d in &node.data {
+                self.scope.push(d.id.clone());
+            }
+            let scope = self.scope.clone();
+            self.vars = self.all_vars.iter().filter(|v| !v.starts_with('w') || scope.contains(v)).cloned().collect();
+        }
         // onentry / onexit
         if depth > 0 {
             let nb = if self.pm(self.p.content) { self.rng.range(1, 2) } else { 0 };
@@ -765,6 +793,14 @@ impl<'a> G<'a> {
             self.decorate(c, all_ids, &anc, depth + 1);
         }
         node.children = children;
+        if self.scoped {
+            for _ in 0..pushed {
+                self.scope.pop();
+            }
+            if depth == 0 {
+                self.vars = self.all_vars.clone();
+            }
+        }
     }
 
     fn legal_initial(&mut self, node: &Node) -> Vec<String> {
@@ -826,7 +862,10 @@ impl<'a> G<'a> {
             t.internal = self.pm(self.p.internal);
         }
         if self.p.dm != Dm::Null {
-            t.content.insert(0, Exec::Mark(label, vec![Expr::EventName]));
+            // ECMAScript: `_event` is unbound until the first event; `_event.name` in an eventless transition
+            // taken at start-up throws there (legitimately), so the mark carries no argument
+            let args = if eventless && self.p.dm == Dm::Ecma { vec![] } else { vec![Expr::EventName] };
+            t.content.insert(0, Exec::Mark(label, args));
             let extra = self.content(0, 2);
             t.content.extend(extra);
         }
@@ -873,7 +912,7 @@ pub fn all_state_ids(n: &Node, out: &mut Vec<String>, include_history: bool) {
 /// Generate a conformant document. Legality of target sets (multi-targets, history defaults) is
 /// enforced by `crate::refsm::Model::validate`, the caller retries on rejection.
 pub fn generate(rng: &mut Rng, p: &Profile, name: &str) -> Doc {
-    let mut g = G { rng, p: p.clone(), n: 0, tcount: 0, mcount: 0, vars: vec![], budget_var: 0 };
+    let mut g = G { rng, p: p.clone(), n: 0, tcount: 0, mcount: 0, vars: vec![], budget_var: 0, scoped: p.dm == Dm::Ecma && p.late, all_vars: vec![], scope: vec![] };
     let mut root = g.tree(String::new(), 0, None);
     if root.children.iter().filter(|c| c.kind != Kind::Final).count() == 0 {
         let id = g.fresh_id();
